@@ -171,6 +171,18 @@ def _cases(ctx):
         for tup in itertools.product(LINES, repeat=k):
             cases.append({'renderer': ['HtmlRenderer', 'MarkdownRenderer', 'XWiki20Renderer', 'JiraRenderer'][len(cases) % 4],
                           'kwargs': {}, 'text': '\n'.join(tup) + '\n'})
+    # characters that Python's regex classes accept beyond ASCII: decimal digits of other scripts in the places of ASCII digits
+    # (\d matches them, [0-9] does not - two patterns that must agree may not), Unicode spaces in the places of spaces
+    digit_sets = ['٠١٢٣٤٥٦٧٨٩', '０１２３４５６７８９', '०१२३४५६७८९']
+    tmpl = ['1. a\n', '2) b\n', '> 1. a\n', '- 1. a\n  2. b\n', '1.\n', '10. x\n    y\n', 'a\n1. b\n', '   3. c\n3. d\n', '1. a\n\n   2. b\n',
+            '&#35; &#x23;\n', '| 1 |\n|---|\n| 2 |\n', '1986\\. ok\n', '```1\nx\n```\n', '# 1\n', '[1]: /u\n\n[1]\n']
+    for t in tmpl:
+        for ds in digit_sets:
+            u = ''.join(ds[int(c)] if c.isdigit() and c.isascii() else c for c in t)
+            mixed = ''.join((ds[int(c)] if (c.isdigit() and c.isascii() and i % 2) else c) for i, c in enumerate(t))
+            for v in (u, mixed, u.replace(' ', '\u2003', 1), u.replace(' ', '\xa0', 1)):
+                for rn, kw in cs[:1] + [cs[(len(cases) * 7 + 3) % len(cs)]]:
+                    cases.append({'renderer': rn, 'kwargs': kw, 'text': v})
     # long runs of one significant character, alone and inside the line shapes the block patterns look at (a pattern that
     # backtracks exponentially on such a run hangs here; ordinary inputs never contain a run of this length)
     for ch in '-=*_`~[]()<>!#|:&\\+.0 \t':
